@@ -11,7 +11,8 @@ package main
 // the real formatter prints for it; the driver evaluates the theorem hypotheses (`wfText` /
 // `wfCallText`, `floatsOk`) on the real input and the harness RAISES a violation when a hypothesis
 // fails on an input whose real text leg works (so the theorems cover what the runs cover), except
-// for -0.0 (known finding C16-N5: floatsOk is false there, by design).
+// for -0.0 (known finding C16-N5: wfText is false there - strconv prints "-0", neither a NUM_FLOAT
+// token nor a canonical integer; floatsOk must still hold).
 
 import (
 	"bytes"
@@ -133,12 +134,14 @@ func (x *c16Runner) textLegExp(k *c16Case, id string, e syntax.Exp) {
 		hyp := f["wf"] == "true" && f["fok"] == "true"
 		if hyp {
 			r.hist("textleg_exp_hypotheses_hold")
-		} else if negZero {
-			r.hist("textleg_exp_hypotheses_fail_negative_zero")
+		} else if negZero && f["fok"] == "true" {
+			// -0.0: strconv prints "-0", which fails wfText (neither a NUM_FLOAT token nor a canonical
+			// integer); floatsOk must still hold, and the trees were compared above
+			r.hist("textleg_exp_wf_fails_negative_zero")
 		} else if realBack != "none" && realBack != "panic" {
 			r.violate(Violation{Kind: "correspondence", Key: k.key("textleg:hypothesis"),
-				What:  fmt.Sprintf("a hypothesis of text_leg_is_format_parse fails (wfText=%s floatsOk=%s) on an expression whose real text leg works: the theorem does not cover an input the runs cover", f["wf"], f["fok"]),
-				Input: in, Broken: "text_leg_is_format_parse (hypotheses wfText / floatsOk)"})
+				What:  fmt.Sprintf("a hypothesis of text_leg_is_format_parse_partial fails (wfText=%s floatsOk=%s) on an expression whose real text leg works: the theorem does not cover an input the runs cover", f["wf"], f["fok"]),
+				Input: in, Broken: "text_leg_is_format_parse_partial (hypotheses wfText / floatsOk)"})
 		} else {
 			r.hist("textleg_exp_hypotheses_fail_and_real_fails")
 		}
@@ -211,12 +214,12 @@ func (x *c16Runner) textLegCall(k *c16Case, inv *core.InvocationData, src string
 		hyp := f["wf"] == "true" && f["fok"] == "true"
 		if hyp {
 			r.hist("textleg_call_hypotheses_hold")
-		} else if negZero {
-			r.hist("textleg_call_hypotheses_fail_negative_zero")
+		} else if negZero && f["fok"] == "true" {
+			r.hist("textleg_call_wf_fails_negative_zero")
 		} else if realBack != "none" && realBack != "panic" {
 			r.violate(Violation{Kind: "correspondence", Key: k.key("textleg:call-hypothesis"),
-				What:  fmt.Sprintf("a hypothesis of source_roundtrip_text fails (wfCallText=%s floatsOkBinds=%s) on a call whose real text leg works", f["wf"], f["fok"]),
-				Input: in, Broken: "source_roundtrip_text (hypotheses wfCallText / floatsOkBinds)"})
+				What:  fmt.Sprintf("a hypothesis of source_roundtrip_text_partial fails (wfCallText=%s floatsOkBinds=%s) on a call whose real text leg works", f["wf"], f["fok"]),
+				Input: in, Broken: "source_roundtrip_text_partial (hypotheses wfCallText / floatsOkBinds)"})
 		} else {
 			r.hist("textleg_call_hypotheses_fail_and_real_fails")
 		}
@@ -344,4 +347,106 @@ func (x *c16Runner) jsonTree(k *c16Case, id string, raw []byte) {
 				Broken: "correspondence C16.jsontree (InvocationJson.treeOfBytes)"})
 		}
 	})
+}
+
+// sortKeys (audit pass 2, C16-M1): JSON objects whose members are in RANDOM order with duplicated keys
+// at every depth.  Real: ParseValExp builds Go maps (later duplicate wins) and the formatter prints
+// the keys sorted; model: ofJ keeps source order and InvocationSort.sortE is the map in printing
+// order.  Compared: the real expression tree (read through sorted keys) = sortE of the members as
+// written; the text the real formatter prints re-parses to the same tree.
+func (x *c16Runner) sortKeys(n int) {
+	c, r := x.c, x.r
+	keys := []string{"a", "b", "c", "ab", "B", "", "é", "a b", "z"}
+	var gen func(depth int, sb *strings.Builder)
+	gen = func(depth int, sb *strings.Builder) {
+		switch k := c.Rng.Intn(6); {
+		case depth > 0 && k < 3:
+			sb.WriteByte('{')
+			m := c.Rng.Intn(5)
+			for i := 0; i < m; i++ {
+				if i > 0 {
+					sb.WriteByte(',')
+				}
+				kb, _ := json.Marshal(keys[c.Rng.Intn(len(keys))])
+				sb.Write(kb)
+				sb.WriteByte(':')
+				gen(depth-1, sb)
+			}
+			sb.WriteByte('}')
+		case depth > 0 && k == 3:
+			sb.WriteByte('[')
+			m := c.Rng.Intn(3)
+			for i := 0; i < m; i++ {
+				if i > 0 {
+					sb.WriteByte(',')
+				}
+				gen(depth-1, sb)
+			}
+			sb.WriteByte(']')
+		case k == 4:
+			sb.WriteString(`"s"`)
+		default:
+			fmt.Fprintf(sb, "%d", c.Rng.Intn(10))
+		}
+	}
+	for i := 0; i < n; i++ {
+		var sb strings.Builder
+		sb.WriteByte('{')
+		m := 1 + c.Rng.Intn(5)
+		for j := 0; j < m; j++ {
+			if j > 0 {
+				sb.WriteByte(',')
+			}
+			kb, _ := json.Marshal(keys[c.Rng.Intn(len(keys))])
+			sb.Write(kb)
+			sb.WriteByte(':')
+			gen(3, &sb)
+		}
+		sb.WriteByte('}')
+		text := sb.String()
+		ordered, err := c16CanonOrdered([]byte(text))
+		if err != nil {
+			continue
+		}
+		var parser syntax.Parser
+		exp, perr := parser.ParseValExp([]byte(text))
+		if perr != nil {
+			r.violate(Violation{Kind: "property", Key: "C16:member-order:parse", What: "ParseValExp rejects a JSON object: " + perr.Error(), Input: text})
+			continue
+		}
+		var rb strings.Builder
+		c16ExpTok(exp, &rb)
+		real := strings.TrimSpace(rb.String())
+		// the printed text reads back as the same tree
+		printed := syntax.VerifFormatExp(exp, "")
+		back := ""
+		if e2, err := parser.ParseValExp([]byte(printed)); err == nil {
+			var bb strings.Builder
+			c16ExpTok(e2, &bb)
+			back = strings.TrimSpace(bb.String())
+		}
+		r.count("SORT:"+text, strings.Count(text, "{") > 1)
+		x.ask([]string{"C16.sortkeys", ordered}, func(rep string) {
+			r.hist("member_order_case")
+			i := strings.IndexByte(rep, ' ')
+			if i < 0 {
+				r.violate(Violation{Kind: "correspondence", Key: "C16:member-order:request", What: "driver reply: " + rep, Input: text, Broken: "correspondence C16.sortkeys"})
+				return
+			}
+			if strings.HasPrefix(rep, "sorted=false") {
+				r.hist("member_order_input_not_in_printing_order")
+			}
+			if rep[i+1:] != real {
+				r.violate(Violation{Kind: "correspondence", Key: "C16:member-order:tree",
+					What:  "the expression ParseValExp builds of a JSON object (Go map: no order, last duplicate wins; read through sorted keys) differs from the model's sortE of the members as written",
+					Input: text, Impl: real, Model: rep[i+1:], Broken: "correspondence C16.sortkeys (InvocationSort.sortE ~ the Go map behind MapExp)"})
+				return
+			}
+			if back != real {
+				r.violate(Violation{Kind: "property", Key: "C16:member-order:text",
+					What: "the text the formatter prints for the parsed object does not read back as the same tree", Input: text, Impl: back, Expect: real})
+			}
+		})
+	}
+	x.flush()
 }
